@@ -3,9 +3,7 @@ use crate::common::*;
 use crate::e1::*;
 use crate::transport::*;
 use crate::wires::*;
-use rayon::prelude::*;
 use serde_json::json;
-use std::sync::Mutex;
 
 const SMALL_SIZES: [usize; 7] = [0, 1, 2, 3, 7, 8192, 200000];
 
@@ -200,35 +198,127 @@ fn run_cases(ctx: &Ctx, mut cases: Vec<(Case, u64)>) -> (Stats, u64) {
         Ok("large") => cases.retain(|(c, _)| c.wire.len >= 1000),
         _ => {}
     }
-    eprintln!("{}: {} cases", ctx.id, cases.len());
-    // expensive (large-payload) cases first, one case per work item
+    // expensive (large-payload) cases first
     cases.sort_by_key(|(c, r)| (std::cmp::Reverse(c.wire.len >= 1000), *r));
-    let agg = Mutex::new(Agg {
-        stats: Stats::default(),
-        cases: 0,
-        samples: Vec::new(),
-    });
     let n = cases.len();
-    let chunk_size = if cases.len() > 100_000 { 16 } else { 1 };
-    cases.par_chunks(chunk_size).for_each(|chunk| {
-        let mut local = Stats::default();
-        for (case, rank) in chunk {
-            let st = explore(ctx, case, *rank);
-            local.add(&st);
-        }
-        let mut a = agg.lock().unwrap();
-        a.stats.add(&local);
-        a.cases += chunk.len() as u64;
+    if let Some((shard, nshards)) = WORKER.get().copied() {
+        worker_run(ctx, &cases, shard, nshards);
+    }
+    eprintln!("{}: {} cases", ctx.id, cases.len());
+    // Cases run in worker PROCESSES with an address-space limit: a changed tree that fabricates an
+    // endless body would otherwise take the whole machine down through `bytes()`; a worker that
+    // dies is a verdict for the case it had announced.
+    let nshards = 16usize;
+    let exe = std::env::current_exe().unwrap();
+    let (id, tier) = (ctx.id, ctx.tier.name());
+    let outputs: Vec<(usize, bool, String)> = std::thread::scope(|s| {
+        let hs: Vec<_> = (0..nshards)
+            .map(|sh| {
+                let exe = exe.clone();
+                s.spawn(move || {
+                    let out = std::process::Command::new(exe)
+                        .args([id, "--worker", tier, &sh.to_string(), &nshards.to_string()])
+                        .stderr(std::process::Stdio::null())
+                        .output()
+                        .expect("cannot run an E1 worker");
+                    (sh, out.status.success(), String::from_utf8_lossy(&out.stdout).into_owned())
+                })
+            })
+            .collect();
+        hs.into_iter().map(|h| h.join().unwrap()).collect()
     });
+    let mut stats = Stats::default();
+    let mut done_cases = 0u64;
+    for (sh, ok, text) in outputs {
+        let mut last_at: Option<usize> = None;
+        let mut done = false;
+        for line in text.lines() {
+            let v: serde_json::Value = match serde_json::from_str(line) {
+                Ok(v) => v,
+                Err(_) => continue,
+            };
+            match v["t"].as_str() {
+                Some("at") => last_at = v["i"].as_u64().map(|x| x as usize),
+                Some("v") => ctx.violation_n(v["sig"].as_str().unwrap().to_string(), v["what"].as_str().unwrap().to_string(), v["case"].clone(), v["rank"].as_u64().unwrap_or(0), v["n"].as_u64().unwrap_or(1)),
+                Some("done") => {
+                    done = true;
+                    done_cases += v["cases"].as_u64().unwrap();
+                    let st = Stats {
+                        states: v["states"].as_u64().unwrap(),
+                        transitions: v["transitions"].as_u64().unwrap(),
+                        executions: v["executions"].as_u64().unwrap(),
+                        max_depth: v["max_depth"].as_u64().unwrap(),
+                        capped_cases: v["capped"].as_u64().unwrap(),
+                        outcomes: v["outcomes"].as_object().unwrap().iter().map(|(k, n)| (k.clone(), n.as_u64().unwrap())).collect(),
+                    };
+                    stats.add(&st);
+                }
+                _ => {}
+            }
+        }
+        if !done || !ok {
+            match last_at {
+                Some(i) => {
+                    let (c, rank) = &cases[i];
+                    let fr = format!("{:?}", c.wire.framing).to_lowercase();
+                    ctx.violation(
+                        format!("{:?}:{fr}:worker-died", c.mode),
+                        "the worker process died while exploring this case (allocation failure, abort or stack overflow): the client allocated without bound or crashed the process".to_string(),
+                        json!({"engine": "e1", "case": c, "history": []}),
+                        *rank * 1000,
+                    );
+                }
+                None => {
+                    eprintln!("MACHINERY: E1 worker {sh} failed before announcing a case");
+                    std::process::exit(2);
+                }
+            }
+        }
+    }
     // samples: first, a middle one, the last
     for i in [0, n / 3, n / 2, n.saturating_sub(1)] {
         if let Some((c, _)) = cases.get(i) {
             ctx.sample(json!({"case": c}));
         }
     }
-    let a = agg.into_inner().unwrap();
-    let _ = a.samples;
-    (a.stats, a.cases)
+    (stats, done_cases)
+}
+
+/// (shard, number of shards) when this process is an E1 worker.
+pub static WORKER: std::sync::OnceLock<(usize, usize)> = std::sync::OnceLock::new();
+
+fn worker_run(ctx: &Ctx, cases: &[(Case, u64)], shard: usize, nshards: usize) -> ! {
+    use std::io::Write;
+    // 6 GiB of address space is far more than any case needs on the unchanged tree
+    unsafe {
+        let lim = libc::rlimit { rlim_cur: 6 << 30, rlim_max: 6 << 30 };
+        libc::setrlimit(libc::RLIMIT_AS, &lim);
+    }
+    let out = std::io::stdout();
+    let mut out = out.lock();
+    let mut stats = Stats::default();
+    let mut n = 0u64;
+    for (i, (case, rank)) in cases.iter().enumerate() {
+        if i % nshards != shard {
+            continue;
+        }
+        writeln!(out, "{}", json!({"t": "at", "i": i})).unwrap();
+        out.flush().unwrap();
+        let st = explore(ctx, case, *rank);
+        stats.add(&st);
+        n += 1;
+    }
+    for (v, cnt) in ctx.drain_violations() {
+        writeln!(out, "{}", json!({"t": "v", "sig": v.signature, "what": v.what, "case": v.replay, "rank": v.rank, "n": cnt})).unwrap();
+    }
+    writeln!(
+        out,
+        "{}",
+        json!({"t": "done", "cases": n, "states": stats.states, "transitions": stats.transitions, "executions": stats.executions, "max_depth": stats.max_depth, "capped": stats.capped_cases, "outcomes": stats.outcomes})
+    )
+    .unwrap();
+    out.flush().unwrap();
+    std::process::exit(0)
 }
 
 fn fill_report(ctx: &Ctx, rep: &mut Report, st: &Stats, cases: u64) {
